@@ -17,6 +17,8 @@ package main
 
 import (
 	"fmt"
+	"net/http"
+	"net/url"
 	"time"
 )
 
@@ -31,7 +33,14 @@ func init() {
 			{SkipAuthRegex: []string{"^/foo/"}, SkipAuthRoutes: []string{"PUT=^/foo/", "GET!=^/foo/", "^/open$"}, EmailDomains: []string{"example.com"}},
 			{SkipAuthRoutes: []string{"get=^/lower$", "GET=^/lower$", "=^/anymethod$", "!=^/"}, AllowedGroups: []string{"dev"}},
 			{SkipPreflight: true, TrustedIPs: []string{"192.0.2.7"}, EmailDomains: []string{"example.com"}},
+			// API routes answer 401 instead of a redirect: they exempt nothing, OPTIONS included, while preflight exemption is off
+			{APIRoutes: []string{"^/api", "reports"}, SkipAuthRoutes: []string{"GET=^/open$"}, AllowedGroups: []string{"dev"}},
+			{APIRoutes: []string{"^/"}, EmailDomains: []string{"example.com"}},
+			// behind another proxy: the rules see the PATH of X-Forwarded-Uri (its query counts for nothing, whatever it contains)
+			{ReverseProxy: true, SkipAuthRoutes: []string{"^/public/", "GET!=^/api"}, APIRoutes: []string{"^/api"}, AllowedGroups: []string{"dev"}},
 		}
+		fwdURIs := []string{"/public/logo.png", "/admin/users?rd=https://app.example.com/public/logo.png", "/admin/users?next=/public/x", "/api/users?x=://host/public/",
+			"/private://x/public/y", "/api/a?u=http://h/other", "/other?http://h/api/x"}
 		methods := []string{"GET", "POST", "HEAD", "DELETE", "OPTIONS", "PUT"}
 		paths := []string{"/reports/2024", "/reports", "/api/users", "/apix", "/open", "/open/x", "/foo/a", "/other", "/lower", "/anymethod"}
 		remotes := []string{"", "10.1.2.3:99", "192.0.2.7:1", "[::ffff:192.0.2.7]:1", "[2001:db8:0:1::5]:7", "[2001:db9::1]:7", "@", "[::1]:5", "[::c000:207]:5", "[0:0:1::1]:5"}
@@ -51,12 +60,30 @@ func init() {
 				{"unauthorised-session", e.issueSessionCookie(e.sessionFor(outsider, time.Minute)), false},
 				{"authorised-session", e.issueSessionCookie(e.sessionFor(authorised, time.Minute)), true},
 			}
+			pathsHere := paths
+			if cfg.ReverseProxy {
+				pathsHere = fwdURIs
+			}
 			for _, method := range methods {
-				for _, path := range paths {
+				for _, path := range pathsHere {
 					for qi, query := range []string{"", "?x=^/open$&next=/reports/1"} {
 						for ri, remote := range remotes {
 							if c.scale == 1 && (ri > 0 && (len(method)+len(path)+qi+ri+ci)%3 != 0) {
 								continue
+							}
+							path := path // (judged path: a per-iteration copy)
+							target, hdr := path+query, http.Header(nil)
+							if cfg.ReverseProxy {
+								// the front proxy reports the original URI in the header; what it sends on is something else
+								if qi == 1 {
+									continue
+								}
+								target, hdr = "/ignored?x=/public/y", http.Header{"X-Forwarded-Uri": {path}}
+								if pu, err := url.Parse(path); err == nil {
+									path = pu.Path
+								} else {
+									continue
+								}
 							}
 							// the oracle
 							exempt, why := false, "no rule"
@@ -78,7 +105,7 @@ func init() {
 								exempt, why = true, "trusted peer "+remote
 							}
 							for _, cr := range creds {
-								v := e.do(reqSpec{Method: method, Target: path + query, Cookie: cr.cookie, RemoteAddr: remote})
+								v := e.do(reqSpec{Method: method, Target: target, Header: hdr, Cookie: cr.cookie, RemoteAddr: remote})
 								served := len(v.Hits) > 0
 								c.casen(fmt.Sprintf("bypass|%d|%s|%s|%d|%s|%s", ci, method, path, qi, remote, cr.kind), fmt.Sprintf("%s %s%s [%s] %s => %d", method, path, query, cr.kind, why, v.Status))
 								if exempt {
@@ -88,7 +115,7 @@ func init() {
 								}
 								c.count("cred:" + cr.kind)
 								in := map[string]interface{}{"skip_auth_routes": cfg.SkipAuthRoutes, "skip_auth_regex": cfg.SkipAuthRegex, "skip_auth_preflight": cfg.SkipPreflight,
-									"trusted_ips": cfg.TrustedIPs, "method": method, "target": path + query, "peer": remote, "credential": cr.kind, "status": v.Status, "oracle": why}
+									"trusted_ips": cfg.TrustedIPs, "api_routes": cfg.APIRoutes, "reverse_proxy": cfg.ReverseProxy, "method": method, "target": target, "headers": hdr, "path_judged": path, "peer": remote, "credential": cr.kind, "status": v.Status, "oracle": why}
 								if exempt && !served {
 									c.violation("C15", fmt.Sprintf("a request exempt by %s did not reach the upstream (credential riding along: %s): the exemption depends on something else than method, path and client address", why, cr.kind), in)
 								}
